@@ -376,6 +376,36 @@ func knownNonNil(v ssa.Value, b *ssa.BasicBlock) bool {
 	return false
 }
 
+// knownFalse: block b is dominated by the false edge of a branch on v itself (`if !ok { return ok, err }`).
+func knownFalse(v ssa.Value, b *ssa.BasicBlock) bool {
+	rv := Resolve(v)
+	for d := b; d != nil; d = d.Idom() {
+		p := d.Idom()
+		if p == nil {
+			break
+		}
+		ifi, ok := p.Instrs[len(p.Instrs)-1].(*ssa.If)
+		if !ok {
+			continue
+		}
+		cond, succ := Resolve(ifi.Cond), 1
+		for {
+			u, ok := cond.(*ssa.UnOp)
+			if !ok || u.Op != token.NOT {
+				break
+			}
+			cond, succ = Resolve(u.X), 1-succ
+		}
+		if !sameValue(cond, rv) {
+			continue
+		}
+		if s := p.Succs[succ]; s == d && len(s.Preds) == 1 && p.Succs[1-succ] != s {
+			return true
+		}
+	}
+	return false
+}
+
 // edgeNonNil: the edge pred->succ is the non-nil edge of a test of v in pred.
 func edgeNonNil(v ssa.Value, pred, succ *ssa.BasicBlock) bool {
 	ifi, ok := pred.Instrs[len(pred.Instrs)-1].(*ssa.If)
@@ -544,6 +574,9 @@ func valMayBeGood(v ssa.Value, kind byte, at *ssa.BasicBlock, r *CallRes, reache
 	case 'b':
 		if b, ok := ConstBool(Strip(v)); ok {
 			return b
+		}
+		if knownFalse(v, at) {
+			return false
 		}
 	case 'e':
 		if IsNilConst(v) {
